@@ -1,4 +1,4 @@
-use model::data::{Component, Check, DynOption, U16, MessageOption, U32, DataType, Message};
+use model::data::{Component, DynOption, U16, MessageOption, U32, DataType, Message};
 use model::error::{RdpResult, Error, RdpError, RdpErrorKind};
 use std::io::{Cursor, Read};
 use num_enum::TryFromPrimitive;
@@ -69,7 +69,7 @@ pub enum StateTransition {
 fn preamble() -> Component {
     component![
         "bMsgtype" => 0 as u8,
-        "flag" => Check::new(Preambule::PreambleVersion30 as u8),
+        "flag" => 0 as u8,
         "wMsgSize" => DynOption::new(U16::LE(0), |size| MessageOption::Size("message".to_string(), (size.inner() as usize).saturating_sub(4))),
         "message" => Vec::<u8>::new()
     ]
@@ -122,6 +122,12 @@ pub fn client_connect(s: &mut dyn Read) -> RdpResult<()> {
 
     let mut license_message = preamble();
     license_message.read(s)?;
+
+    // low nibble is the preamble version (2.0 or 3.0), high bit announces extended error support
+    let version = cast!(DataType::U8, license_message["flag"])? & 0x0f;
+    if version != Preambule::PreambleVersion20 as u8 && version != Preambule::PreambleVersion30 as u8 {
+        return Err(Error::RdpError(RdpError::new(RdpErrorKind::InvalidData, "License: unknown preamble version")));
+    }
 
     match parse_payload(&license_message)? {
         LicenseMessage::NewLicense => Ok(()),
